@@ -1676,7 +1676,7 @@ def _dup_year_sites(v):
 def _dup_year_apply(v, site):
     t = v.required_tables()[site]
     ys = sorted(t.years)
-    t.ws.cell(row=t.r0, column=t.years[ys[1]]).value = ys[0]
+    t.ws.cell(row=t.r0, column=t.years[ys[1]]).value = t.ws.cell(row=t.r0, column=t.years[ys[0]]).value  # the heading itself (a number or a date)
 
 
 reg("db.duplicate_year_column", DB, "reject", "excel.py:1212-1214 'Duplicate year in cell ...' (wrapped as InvalidDatabook)", _dup_year_sites, _dup_year_apply)
